@@ -68,7 +68,7 @@ def body(p, ctx, indent, caller):
         if not e:
             break
         text, names = e
-        form = r.choice(["stmt", "assign", "if", "if_elsif", "unless", "block", "sum"])
+        form = r.choice(["stmt", "assign", "if", "if_elsif", "unless", "block", "sum", "while"])
         def site(row, ns):
             for n in ns:
                 p.sites.append((row, n, caller[0], caller[1]))
@@ -89,6 +89,10 @@ def body(p, ctx, indent, caller):
             e2 = call_expr(p, ctx)
             site(p.emit("elsif %s > 1" % e2[0], indent), e2[1])
             p.emit("z%d = 2" % len(p.lines), indent + 1)
+            p.emit("end", indent)
+        elif form == "while":
+            site(p.emit("while %s > 9" % text, indent), names)
+            p.emit("z%d = 1" % len(p.lines), indent + 1)
             p.emit("end", indent)
         elif form == "unless":
             site(p.emit("unless %s > 5" % text, indent), names)
